@@ -7,6 +7,9 @@ CHECKS = {
  'C11': dict(level='model_checking', design='6-C11', technique='TLA+ streaming-machine model checked exhaustively with TLC (all chunkings, small block) + TLC trace validation of recorded Blake2b/commitment calls against an RFC 7693 transcription',
    text='TLC explores every chunking of every message length for a scaled-down block size on the streaming machine (exact RFC call sequence, counter carry, lazy last block, reuse rejection); every recorded call of the real code (one-shot, streaming, blake2b_long, commitment, invalid parameters) must be reproduced byte for byte by the TLA+ transcription of RFC 7693 instantiated with the real block size. Exhaustive in the model, sampled (seeded, boundary-stratified) on the code side.',
    note='trusted: TLC, CommunityModules Bitwise/SequencesExt overrides; messages > 2^30 bytes not replayed (counter carry only in the model)'),
+ 'C12': dict(level='model_checking', design='6-C12', technique='TLA+ transcription of FIPS-197 rounds and specs.md ch.3 constructions; TLC checks tables/T-view/constants exhaustively and validates recorded soft+hard AES calls (trace validation)',
+   text='The S-box, GF(2^8) tables and the T-table view are checked exhaustively against their mathematical definitions in TLC; the published keys are recomputed from Blake2b of the named strings; every recorded call of the real code (software and hardware rounds, both generators, fingerprint, combined step) must equal the TLA+ definition byte for byte, with full recomputation on small buffers and local chain links plus soft/hard difference counts on full-size buffers.',
+   note='trusted: TLC, the CPU AES instructions as the hardware path; operands are seeded samples plus boundary patterns, not all 2^256 (state,key) pairs'),
 }
 
 NOT_YET = {}
